@@ -74,6 +74,10 @@ impl BlsSerde for Bls12381G2Impl {
     fn deserialize_scalar<'de, D: Deserializer<'de>>(
         deserializer: D,
     ) -> Result<<Self::PublicKey as Group>::Scalar, D::Error> {
+        #[cfg(feature = "blst")]
+        if deserializer.is_human_readable() {
+            return deserialize_hex_str(deserializer, 32);
+        }
         <Scalar as Deserialize<'de>>::deserialize(deserializer)
     }
 
@@ -86,12 +90,20 @@ impl BlsSerde for Bls12381G2Impl {
     fn deserialize_signature<'de, D: Deserializer<'de>>(
         deserializer: D,
     ) -> Result<Self::Signature, D::Error> {
+        #[cfg(feature = "blst")]
+        if deserializer.is_human_readable() {
+            return deserialize_hex_str(deserializer, 96);
+        }
         Self::Signature::deserialize(deserializer)
     }
 
     fn deserialize_public_key<'de, D: Deserializer<'de>>(
         deserializer: D,
     ) -> Result<Self::PublicKey, D::Error> {
+        #[cfg(feature = "blst")]
+        if deserializer.is_human_readable() {
+            return deserialize_hex_str(deserializer, 48);
+        }
         Self::PublicKey::deserialize(deserializer)
     }
 
